@@ -1652,6 +1652,8 @@ fintStmt(DataObj retDataObj)
 	case FOAM_Values:
 	case FOAM_Catch:
 	case FOAM_EEnsure:
+	case FOAM_Lex: /* we get things like that when we -q0 (deadvar
+			is effective in killing them */
 		ip = stmtPos;
 		(void)fintEval(&expr); /* we ignore the ret value */
 		break;
@@ -1660,8 +1662,6 @@ fintStmt(DataObj retDataObj)
 		fintDEBUG(dbOut, "(Label %d)\n", n);
 		break;
 	case FOAM_Nil:
-	case FOAM_Lex: /* we get things like that when we -q0 (deadvar
-			is effective in killing them */
 	case FOAM_NOp:
 		break;
 	default:
